@@ -395,6 +395,35 @@ func runUcsHistory(r *h.Report, d *h.Driver, cfg ucsCfg, ops []string) {
 		}
 		return true
 	}
+	// Replies in preparation: processReadUseCaseData answers a read from DataCopy of the use-case data and the copy is
+	// serialised later. Every copy taken at a quiescent point must keep describing the registry of that moment whatever
+	// the application declares afterwards (model-free; the registry itself may be right while an outstanding copy is
+	// rewritten through a shared array). Copies are taken before every registry operation and judged after every one.
+	type ucsHeld struct {
+		d    *model.NodeManagementUseCaseDataType
+		text string
+		at   int
+	}
+	var held []ucsHeld
+	hold := func() {
+		if len(inflight) > 0 {
+			return
+		}
+		if c := uw.registry(); c != nil {
+			b, _ := json.Marshal(c)
+			held = append(held, ucsHeld{c, string(b), len(done)})
+		}
+	}
+	judgeHeld := func() {
+		for i := range held {
+			b, _ := json.Marshal(held[i].d)
+			if string(b) != held[i].text {
+				r.SpecFail("C20/reply-in-preparation-changed", done, fmt.Sprintf("copy of the use-case data taken after %d operations read %s then and reads %s now", held[i].at, held[i].text, string(b)))
+				held[i].text = string(b)
+			}
+		}
+		r.Eval("held-copies-judged", "")
+	}
 	for _, op := range ops {
 		f := strings.Fields(op)
 		if len(f) == 0 {
@@ -418,12 +447,14 @@ func runUcsHistory(r *h.Report, d *h.Driver, cfg ucsCfg, ops []string) {
 				kind = f[0]
 			}
 			_, before, _ := ucsRender(uw.registry())
+			hold()
 			if pan := h.Recover(func() { uw.apply(f) }); pan != nil {
 				done = append(done, op)
 				r.SpecFail("C20/panic", done, fmt.Sprint(pan))
 				return
 			}
 			done = append(done, op)
+			judgeHeld()
 			var after map[string]ucsVal
 			impl, after, _ = ucsRender(uw.registry())
 			line = op
@@ -559,6 +590,7 @@ func runUcsHistory(r *h.Report, d *h.Driver, cfg ucsCfg, ops []string) {
 			}
 			delete(inflight, f[1])
 			done = append(done, op)
+			judgeHeld()
 			if monitor {
 				ucsSpecApply(spec, g.Op)
 			}
